@@ -460,7 +460,7 @@ class PackageGenerator:
             elif mode in ("ann", "inferred") and r.random() < 0.7:
                 rdoc = ("", f"Outcome {self.tokens.new('R', fq)}.")
             ex = None
-            if r.random() < 0.3:
+            if r.random() < 0.3 and self.doc_style in ("NUMPYDOC", "GOOGLE"):
                 xtok = self.tokens.new("X", fq)
                 ex = f"{name}({xtok})" if r.random() < 0.6 else r.choice([f"{name}({xtok})[..., 0]", f"print('{xtok}...')", f"{name}({xtok}, [1, 2, ...])"])
                 self.tokens.table[xtok]["code"] = ex
@@ -499,7 +499,7 @@ class PackageGenerator:
             adocs = []
             if self.doc_style in ("NUMPYDOC", "GOOGLE"):
                 adocs = [(an, "", f"Attr {self.tokens.new('A', cq, an)}.") for an, _a, _v in attrs if r.random() < 0.6]
-            ex = f"{name}({self.tokens.new('X', cq)})" if r.random() < 0.25 else None
+            ex = f"{name}({self.tokens.new('X', cq)})" if r.random() < 0.25 and self.doc_style in ("NUMPYDOC", "GOOGLE") else None
             lines.append(self.doc(inner, self.desc("C", cq), pdocs, None, adocs, ex))
         for an, ann, val in attrs:
             if ann and val is not None:
